@@ -67,6 +67,13 @@ func (w *ParallelWorkers) processQueue() {
 			shouldShutdown := w.shouldShutdown
 			w.lock.Unlock()
 			if shouldShutdown {
+				// The job will never run: drop whatever its owner still adds (so that Go never
+				// blocks on a full task buffer) and release the completion callback.
+				go func(tasks <-chan func() error) {
+					for range tasks { //nolint:revive
+					}
+				}(j.tasks)
+				close(j.completed)
 				j.result <- ErrShutdown
 				continue
 			}
